@@ -15,6 +15,8 @@ truthiness            truthiness of d.get(k): `d.get(k) or default`, `if d.get(k
                       reviewed instances on the tree are sanctioned by name.
 shared object in a    a loop stores one and the same freshly built mutable object
 loop                  into a container on every iteration (zero on the reviewed tree).
+last-iteration leak   a name bound only inside a loop body is read after the loop (zero on
+                      the reviewed tree).
 length difference     d['..._length'] = a - b without a dominating `if a < b: raise`
                       (4 guarded stores on the reviewed tree).
 dropped forwarding    f(p=...) calls g, g has a defaulted parameter also named
@@ -113,6 +115,34 @@ def shared_object_in_loop(m):
                 defs = [a.value for a in ast.walk(fn) if isinstance(a, ast.Assign) and any(isinstance(t, ast.Name) and t.id == v for t in a.targets)]
                 if defs and all(_mutable_expr(d) for d in defs):
                     out.append((fn, s, "the one object `%s` (= %s) is stored on every iteration of the loop at line %d: the containers share it" % (v, short(defs[0], 40), loop.lineno)))
+    return out
+
+
+def last_iteration_leaks(m):
+    """(function, node, reason) where a name bound only inside a loop's body (not the loop target, not a parameter, bound
+    nowhere else in the function) is read after that loop in the enclosing block: it then holds the value of the last
+    iteration only -- typically an accumulation statement that slipped out of the loop it belongs to."""
+    out = []
+    for fn in [f for f in ast.walk(m.tree) if isinstance(f, (ast.FunctionDef, ast.AsyncFunctionDef))]:
+        params = {a.arg for a in fn.args.posonlyargs + fn.args.args + fn.args.kwonlyargs}
+        for owner in ast.walk(fn):
+            for field in ("body", "orelse", "finalbody"):
+                blk = getattr(owner, field, None)
+                if not isinstance(blk, list):
+                    continue
+                for i, s in enumerate(blk):
+                    if not isinstance(s, (ast.For, ast.While)):
+                        continue
+                    inner = {x.id for b in s.body for x in ast.walk(b) if isinstance(x, ast.Name) and isinstance(x.ctx, ast.Store)}
+                    tgt = {x.id for x in ast.walk(s.target) if isinstance(x, ast.Name)} if isinstance(s, ast.For) else set()
+                    inloop = {id(y) for y in ast.walk(s)}
+                    outside = {x.id for x in ast.walk(fn) if isinstance(x, ast.Name) and isinstance(x.ctx, ast.Store) and id(x) not in inloop}
+                    cand = inner - outside - params - tgt
+                    for later in blk[i + 1:]:
+                        for x in ast.walk(later):
+                            if cand and isinstance(x, ast.Name) and isinstance(x.ctx, ast.Load) and x.id in cand:
+                                out.append((fn, x, "`%s` is bound only inside the loop at line %d but read after it: only the last iteration's value is used" % (x.id, s.lineno)))
+                                cand = cand - {x.id}
     return out
 
 
@@ -288,6 +318,13 @@ def share(units):
     for u in units:
         fresh = dict(a=1)
         u["other"] = fresh
+def leak(rows):
+    best = 0
+    for r in rows:
+        for c in r:
+            size = len(c)
+        best = max(size, best)
+    return best
 def lens(d, total):
     if total < 2:
         raise ValueError()
@@ -329,7 +366,7 @@ def selfcheck():
                 return s
             return None
 
-    if len(swapped_arguments(R(), m)) != 1 or len(stale_lower_bound_guards(m)) != 1 or len(truthiness_presence(m)) != 2 or len(optional_attr_truthiness(m)) != 1 or (len(dropped_forwarding(R(), m)[0]), dropped_forwarding(R(), m)[1]) != (1, 1) or len(shared_object_in_loop(m)) != 1 or (len(length_differences(m)[0]), length_differences(m)[1]) != (1, 1):
+    if len(swapped_arguments(R(), m)) != 1 or len(stale_lower_bound_guards(m)) != 1 or len(truthiness_presence(m)) != 2 or len(optional_attr_truthiness(m)) != 1 or (len(dropped_forwarding(R(), m)[0]), dropped_forwarding(R(), m)[1]) != (1, 1) or len(shared_object_in_loop(m)) != 1 or (len(length_differences(m)[0]), length_differences(m)[1]) != (1, 1) or len(last_iteration_leaks(m)) != 1:
         raise AnalysisError("bug-pattern rules no longer recognise their positive fixture")
 
 
@@ -342,6 +379,6 @@ def rule(repo, res, rid, modules):
         st = stale_lower_bound_guards(m)
         tp = [(fn, n, why) for fn, n, why in truthiness_presence(m) if (name, fn.name) not in TRUTHINESS_SANCTIONED] + optional_attr_truthiness(m)
         df, _fw = dropped_forwarding(repo, m)
-        df = df + shared_object_in_loop(m) + length_differences(m)[0]
+        df = df + shared_object_in_loop(m) + length_differences(m)[0] + last_iteration_leaks(m)
         bad = ["%s in %s (line %d)" % (why, fn.name, n.lineno) for fn, n, why in sw + df] + ["%s in %s" % (why, fn.name) for fn, n, why in st] + ["%s in %s (line %d)" % (why, fn.name, n.lineno) for fn, n, why in tp]
-        res.check(not bad, rid, "bug-patterns:%s" % name, m.rel, "; ".join(bad), by="no swapped same-named arguments, no lower-bound guard followed by a decrement, no presence-by-truthiness of a dictionary entry, every same-named defaulted parameter passed on, no loop storing one fresh mutable object into many containers, every `x - y` stored into a length field dominated by `if x < y: raise`")
+        res.check(not bad, rid, "bug-patterns:%s" % name, m.rel, "; ".join(bad), by="no swapped same-named arguments, no lower-bound guard followed by a decrement, no presence-by-truthiness of a dictionary entry, every same-named defaulted parameter passed on, no loop storing one fresh mutable object into many containers, every `x - y` stored into a length field dominated by `if x < y: raise`, no name bound only inside a loop read after it")
